@@ -67,9 +67,18 @@ int main(int argc, char** argv) {
     if (!strcmp(comp, "replay")) {
         FILE* in = inp ? fopen(inp, "r") : stdin;
         if (!in) { perror("in"); return 2; }
-        char* line = NULL; size_t cap = 0;
-        while (getline(&line, &cap, in) > 0) {
-            if (line[0] == '#' || line[0] == '\n') continue;
+        /* read all lines first and close the input: components may fork, and a child's exit()
+         * would otherwise reposition the shared input descriptor */
+        char** lines = NULL; size_t nl = 0, capl = 0;
+        { char* ln = NULL; size_t cp = 0;
+          while (getline(&ln, &cp, in) > 0) { if (nl == capl) { capl = capl * 2 + 64; lines = (char**)realloc(lines, capl * sizeof(char*)); } lines[nl++] = strdup(ln); }
+          free(ln); }
+        if (in != stdin) fclose(in);
+        in = NULL;
+        char* line = NULL;
+        for (size_t li = 0; li < nl; li++) {
+            line = lines[li];
+            if (line[0] == '#' || line[0] == '\n') { free(line); continue; }
             h_line l;
             if (h_parse_line(line, &l)) { fprintf(stderr, "bad line\n"); return 2; }
             int done = 0;
@@ -77,9 +86,11 @@ int main(int argc, char** argv) {
                 if (h_components[c]->replay) done = h_components[c]->replay(&h, &l);
             if (!done) { fprintf(stderr, "no component replays op %s\n", l.op); return 2; }
             h_free_line(&l);
+            free(line);
         }
-        free(line);
-        if (in != stdin) fclose(in);
+        free(lines);
+        line = NULL;
+        (void)line;
     } else {
         int found = 0;
         for (int c = 0; c < h_n_components; c++)
